@@ -689,12 +689,12 @@ func c11Eval(c *Case, e *c11E, tag string, sample bool, sys int) {
 
 func runC11(r *Run) {
 	t := c11BuildTree()
-	r.Rule = "expressions built from a model: 1-4 access chains over the exported BuiltinUntrustedInputs tree (untrusted leaf, trusted sibling, strict prefix, extension, extra/missing index, object filter .* in place of names, foreign root), every name segment as .name or ['name'] in lower/UPPER/mixed case, array segments as [0] / [<number expr>] / .*, prefixes in parentheses, embedded in ! && || == != < <= > >=, parentheses, index positions of other chains, arguments of format/join/toJSON/fromJSON and of contains/startsWith/endsWith (function names in any letter case); each expression is linted once in a workflow holding it at 2 script positions (run:, script: of actions/github-script) and 9 non-script positions (other input of github-script, with: of another action, script: input of another action, step env: twice, if: as placeholder and bare, step name:, working-directory:). The text around the (single) placeholder is, for half of the lints, a simple one-line text, otherwise every position draws a realistic shell / JavaScript / Python fragment (with }} , {{ , ${VAR}, ${A:-${B}}, $(…), backticks, heredocs, $ right before the placeholder, closing braces after it, placeholder on the 2nd..nth line) written as plain / single- / double-quoted (also with \\r\\n escapes) / literal | |- |+ / folded > scalar, a quarter of those files with CRLF line breaks; family script-context sweeps every template x style at both script positions; the expected reports never depend on the context. Family spelling-x-embedding enumerates every leaf x every spelling of every segment (6 per name, 3 per array segment) with depth-1 embeddings (quick: one embedding per spelling, rotating; thorough: all). Non-trivial = distinct evaluated expression for which the reference model expects at least one report."
+	r.Rule = "expressions built from a model: 1-4 access chains over the exported BuiltinUntrustedInputs tree (untrusted leaf, trusted sibling, strict prefix, extension, extra/missing index, object filter .* in place of names, foreign root), every name segment as .name or ['name'] in lower/UPPER/mixed case, array segments as [0] / [<number expr>] / .*, prefixes in parentheses, embedded in ! && || == != < <= > >=, parentheses, index positions of other chains, arguments of format/join/toJSON/fromJSON and of contains/startsWith/endsWith (function names in any letter case); each expression is linted once in a workflow holding it at 2 script positions (run:, script: of actions/github-script) and 9 non-script positions (other input of github-script, with: of another action, script: input of another action, step env: twice, if: as placeholder and bare, step name:, working-directory:). The text around the (single) placeholder is, for half of the lints, a simple one-line text, otherwise every position draws a realistic shell / JavaScript / Python fragment (with }} , {{ , ${VAR}, ${A:-${B}}, $(…), backticks, heredocs, $ right before the placeholder, closing braces after it, placeholder on the 2nd..nth line) written as plain / single- / double-quoted (also with \\r\\n escapes) / literal | |- |+ / folded > scalar, a quarter of those files with CRLF line breaks; family script-context sweeps every template x style at both script positions; the expected reports never depend on the context. Family several-placeholders puts 2-4 placeholders (each trusted / untrusted / sanitised independently, rarely an erroneous first one) into one scalar, separated by nothing, one character, text or a line break, at 2 script and 5 non-script positions, and expects the union of the reports. Family spelling-x-embedding enumerates every leaf x every spelling of every segment (6 per name, 3 per array segment) with depth-1 embeddings (quick: one embedding per spelling, rotating; thorough: all). Non-trivial = distinct evaluated expression for which the reference model expects at least one report."
 	r.Assume("`.name` and `['name']` with a string literal are the name accesses of the statement; an index that is any other expression is an array index. Dynamic string indices (github.event[env.K]), numeric strings (pages['0']) and values that reach a property through an operator or a call result ((a && github.event.issue).title, fromJSON(toJSON(github.event)).issue.title) are outside the statement and are not generated")
 	r.Assume("object filter semantics as documented/pinned by the project: `.*` on an object yields the union over its members, on an array its elements; an index directly applied to a filtered array picks one of the filtered values")
 	r.Assume("an expression for which the linter emits any other diagnostic than untrusted-input reports and the template-type note (which is produced after the check) is counted as not evaluated")
 	r.Assume("a foreign diagnostic at a non-script position only (an if: whose text is no expression as a whole) takes that position alone out of the comparison; the if-cond rule's remark about text around the placeholder of an if: is ignored")
-	r.Assume("one placeholder per scalar: the expression rule stops at the first placeholder with an error, so later placeholders of the same script are not checked (C03/C09 territory)")
+	r.Assume("scalars with several placeholders (family several-placeholders): the reports of the placeholders are independent in the reference model. The expression rule stops at the first placeholder of a scalar that got any diagnostic (pinned by testdata/err/context_availability); a missing report of a later placeholder is attributed to that behaviour - signature " + c11LaterAfterReportedSig + " - only when an earlier placeholder of the same scalar demonstrably got a diagnostic at that position; all other families keep one placeholder per scalar")
 	r.Assume("a read that occurs twice may be reported once or twice: sets of reported paths are compared, multiplicity is recorded only")
 
 	if len(t.leaves) < 2 {
@@ -819,7 +819,7 @@ func runC11(r *Run) {
 			depth := c.R.Range(1, 5)
 			e := g.expr(depth, nch)
 			c.Count(fmt.Sprintf("random_chains_per_expression:%d", len(e.Chains)), 1)
-			c11Eval(c, e, "random", c.Idx == 0 && k < 5, -1)
+			c11Eval(c, e, "random", c.Idx == 0 && k < 3, -1)
 		}
 	}})
 
@@ -842,7 +842,14 @@ func runC11(r *Run) {
 			} else {
 				e = g.expr(c.R.Range(1, 4), 1+c.R.Intn(3))
 			}
-			c11Eval(c, e, "context", c.Idx == 0 && k < 2, sys)
+			c11Eval(c, e, "context", c.Idx == 0 && k < 1, sys)
+		}
+	}})
+
+	// ---- family 5: scalars with 2-4 placeholders (c11_multi.go)
+	fams = append(fams, &Family{Name: "several-placeholders", N: r.Q(80, 2400), Do: func(c *Case) {
+		for k := 0; k < 50; k++ {
+			c11EvalMulti(c, t, c.Idx*50+k, c.Idx == 0 && k < 6)
 		}
 	}})
 
@@ -894,6 +901,7 @@ func runC11(r *Run) {
 			r.Inconclusive("context class never evaluated at a non-script position: " + f)
 		}
 	}
+	c11MultiFloors(r)
 	for _, f := range []string{"single", "multi"} {
 		if !r.SetHas("diagnostic_forms_seen", f) {
 			r.Inconclusive("diagnostic form never observed: " + f)
